@@ -677,7 +677,7 @@ func (s *Safety) onApply(e *Event) {
 	} else {
 		s.applied[a.Index] = *a
 		s.appliedSeq[a.Index] = e.Seq
-		if j, ok := s.hashApplied[a.H]; ok && j != a.Index {
+		if j, ok := s.hashApplied[a.H]; ok && j != a.Index && a.H != HashBytes(nil) {
 			s.v("C03", "C03/applied-twice", fmt.Sprintf("operation h%x applied at index %d and at index %d", a.H, j, a.Index), e.Seq)
 		}
 		s.hashApplied[a.H] = a.Index
